@@ -63,11 +63,12 @@ TrWrite ==
 
 DoLc(op, t) ==
     CASE op = "start"  -> StartTask(t)
+      [] op = "startfail" -> StartTaskFail(t)
       [] op = "stop"   -> StopTask(t)
       [] op = "delete" -> DeleteTask(t)
 TrLc ==
     /\ IsEv("Lc") /\ Ln.t \in T
-    /\ Chk("lifecycle call succeeded", Ln.ret = "ok")
+    /\ Chk("lifecycle call returned as expected", (Ln.ret = "ok") = (Ln.op # "startfail"))
     /\ DoLc(Ln.op, Ln.t)
     /\ UNCHANGED inflight
 
@@ -96,8 +97,13 @@ SinkOK(t, k, q) ==
                (status[s][t] = "must" /\ Selected(t, k, written[s]) /\ ~InIngest(s))
                    => \E i \in DOMAIN q : q[i].s = s)
 
+(* the published statistics show no live input edge of a non-executing task with *)
+(* points collected on it (a live edge with nothing collected is only reported)  *)
+NoOrphan == Chk("nothing is routed to a task that is not executing", Ln.orphan_collected = 0)
+
 TrObsV ==
     /\ IsEv("Obs") /\ Ln.t \in T /\ Ln.t \notin executing
+    /\ NoOrphan
     /\ Len(Ln.sinks) = Len(def[Ln.t].froms)
     /\ \A k \in DOMAIN Ln.sinks : SinkOK(Ln.t, k, Ln.sinks[k])
     /\ UNCHANGED <<vars, inflight>>
@@ -146,6 +152,7 @@ TrSilentI ==
 TrSyncI == IsEv("Sync") /\ ingest = <<>> /\ UNCHANGED <<vars, inflight>>
 TrObsI ==
     /\ IsEv("Obs") /\ Ln.t \in T /\ Ln.t \notin executing
+    /\ Ln.orphan_edges = 0
     /\ Len(Ln.sinks) = Len(def[Ln.t].froms)
     /\ \A k \in DOMAIN Ln.sinks : [i \in DOMAIN Ln.sinks[k] |-> Ln.sinks[k][i].s] = delivered[Ln.t][k]
     /\ UNCHANGED <<vars, inflight>>
